@@ -245,3 +245,50 @@ RECIPES += [
      "loop condition with <= for <"),
     ("C05", "break", ["C05-R1", "C05-R3", "C05-R4"], C, _C1_STORE, _C1_GOTO.replace("    next_point: ;\n    }\n", "    }\n    next_point: ;\n"), "`goto` to a label behind the count loop: the first X < Y ends the counting"),
 ]
+
+# pass 4: the memory layout the C entry point asks for (round-4 seed K).  The requirement word is read by value (clang expands the numpy macros)
+_C_OTF = ("    peaks_array = (PyArrayObject *)PyArray_FROM_OTF(peaks_obj, NPY_DOUBLE,\n                                                    NPY_ARRAY_IN_ARRAY);\n\n"
+          "    if (peaks_array == NULL) return NULL;\n")
+
+
+def _otf(flags, extra=""):
+    return ("    peaks_array = (PyArrayObject *)PyArray_FROM_OTF(peaks_obj, NPY_DOUBLE,\n                                                    %s);\n\n"
+            "    if (peaks_array == NULL) return NULL;\n%s" % (flags, extra))
+
+
+_C_GETCONTIG = ("    {\n        PyArrayObject *tmp = PyArray_GETCONTIGUOUS(peaks_array);\n        Py_DECREF(peaks_array);\n        peaks_array = tmp;\n"
+                "        if (peaks_array == NULL) return NULL;\n    }\n")
+_C_TESTCOPY = ("    if (!PyArray_IS_C_CONTIGUOUS(peaks_array)) {\n        PyArrayObject *tmp = (PyArrayObject *)PyArray_NewCopy(peaks_array, NPY_CORDER);\n"
+               "        Py_DECREF(peaks_array);\n        peaks_array = tmp;\n        if (peaks_array == NULL) return NULL;\n    }\n")
+_C_FROMANY = ("    peaks_array = (PyArrayObject *)PyArray_FromAny(peaks_obj, PyArray_DescrFromType(NPY_DOUBLE), 0, 0, %s, NULL);\n\n"
+              "    if (peaks_array == NULL) return NULL;\n")
+
+RECIPES += [
+    ("C05", "break", ["C05-R8"], C, _C_OTF, _otf("NPY_ARRAY_ALIGNED |\n                                                    NPY_ARRAY_NOTSWAPPED"),
+     "C entry point: aligned + native byte order only, contiguity no longer required (seed K)"),
+    ("C05", "break", ["C05-R8"], C, _C_OTF, _otf("0"), "C entry point: no requirement on the array at all"),
+    ("C05", "break", ["C05-R8"], C, _C_OTF, _otf("NPY_ARRAY_ALIGNED"), "C entry point: NPY_ARRAY_ALIGNED only"),
+    ("C05", "break", ["C05-R8"], C, _C_OTF, _otf("NPY_ARRAY_BEHAVED"), "C entry point: NPY_ARRAY_BEHAVED (aligned, writeable) - a strided view passes"),
+    ("C05", "break", ["C05-R8"], C, _C_OTF, _otf("NPY_ARRAY_FORCECAST | NPY_ARRAY_ELEMENTSTRIDES"), "C entry point: element strides are not unit strides"),
+    ("C05", "break", ["C05-R8"], C, _C_OTF, "    peaks_array = (PyArrayObject *)PyArray_FROM_OT(peaks_obj, NPY_DOUBLE);\n\n    if (peaks_array == NULL) return NULL;\n",
+     "C entry point: PyArray_FROM_OT (its requirement word is 0 in the numpy header)"),
+    ("C05", "break", ["C05-R8"], C, _C_OTF, _C_FROMANY % "NPY_ARRAY_ALIGNED | NPY_ARRAY_WRITEABLE", "C entry point: PyArray_FromAny spelled out, without a contiguity bit"),
+    ("C05", "break", ["C05-R8"], C, _C_OTF, "    int requirements = NPY_ARRAY_ALIGNED;\n    requirements |= NPY_ARRAY_NOTSWAPPED;\n"
+     "    peaks_array = (PyArrayObject *)PyArray_FROM_OTF(peaks_obj, NPY_DOUBLE, requirements);\n\n    if (peaks_array == NULL) return NULL;\n",
+     "C entry point: requirement word built in a local, without a contiguity bit"),
+    ("C05", "break", ["C05-R8"], C, _C_OTF, _otf("NPY_ARRAY_ALIGNED", _C_TESTCOPY.replace("if (!PyArray_IS_C_CONTIGUOUS(peaks_array))", "if (!PyArray_ISWRITEABLE(peaks_array))")),
+     "C entry point: copies when the array is not writeable - a test that says nothing about the layout"),
+    ("C05", "neutral", [], C, _C_OTF, _otf("NPY_ARRAY_CARRAY_RO"), "C entry point: NPY_ARRAY_CARRAY_RO (the value of NPY_ARRAY_IN_ARRAY)"),
+    ("C05", "neutral", [], C, _C_OTF, _otf("NPY_ARRAY_C_CONTIGUOUS | NPY_ARRAY_ALIGNED"), "C entry point: the two bits of NPY_ARRAY_IN_ARRAY spelled out"),
+    ("C05", "neutral", [], C, _C_OTF, _otf("NPY_ARRAY_IN_ARRAY | NPY_ARRAY_NOTSWAPPED"), "C entry point: native byte order required as well"),
+    ("C05", "neutral", [], C, _C_OTF, _otf("NPY_ARRAY_F_CONTIGUOUS"), "C entry point: F-contiguous - for the vectors the kernels are reached with that is C-contiguous (checked by a run)"),
+    ("C05", "neutral", [], C, _C_OTF, _otf("NPY_ARRAY_ALIGNED | NPY_ARRAY_ENSURECOPY"), "C entry point: always a fresh copy (PyArray_FROM_OTF adds NPY_ARRAY_DEFAULT then; checked by a run)"),
+    ("C05", "neutral", [], C, _C_OTF, "    peaks_array = (PyArrayObject *)PyArray_ContiguousFromAny(peaks_obj, NPY_DOUBLE, 0, 0);\n\n    if (peaks_array == NULL) return NULL;\n",
+     "C entry point: PyArray_ContiguousFromAny"),
+    ("C05", "neutral", [], C, _C_OTF, _C_FROMANY % "NPY_ARRAY_CARRAY_RO", "C entry point: PyArray_FromAny spelled out with NPY_ARRAY_CARRAY_RO"),
+    ("C05", "neutral", [], C, _C_OTF, _otf("NPY_ARRAY_ALIGNED", _C_GETCONTIG), "C entry point: aligned array, then PyArray_GETCONTIGUOUS"),
+    ("C05", "neutral", [], C, _C_OTF, _otf("NPY_ARRAY_ALIGNED", _C_TESTCOPY), "C entry point: aligned array, copied in C order when PyArray_IS_C_CONTIGUOUS says it is not contiguous"),
+    ("C05", "neutral", [], C, _C_OTF, "    int requirements = NPY_ARRAY_ALIGNED;\n    requirements |= NPY_ARRAY_C_CONTIGUOUS;\n"
+     "    peaks_array = (PyArrayObject *)PyArray_FROM_OTF(peaks_obj, NPY_DOUBLE, requirements);\n\n    if (peaks_array == NULL) return NULL;\n",
+     "C entry point: requirement word built in a local with |="),
+]
